@@ -201,11 +201,15 @@ func c19Build(seed uint64, cell c19Cell) *c19Case {
 	case "podLabels":
 		// n pods under one controller with equal labels; the injected one differs
 		labels := map[string]string{"app": "a", "tier": "b"}
+		okind := "ReplicaSet"
+		if strings.HasSuffix(cell.detail, "+refs") {
+			okind = "ReplicaSet+refs" // every pod lists two non-controller references before the controller's
+		}
 		for k := 0; k < cell.n; k++ {
-			group = append(group, podDoc("alpha", fmt.Sprintf("cfl-pod-%d", k), labels, nil, "cfl-owner", "ReplicaSet", r.chance(1, 2)))
+			group = append(group, podDoc("alpha", fmt.Sprintf("cfl-pod-%d", k), labels, nil, "cfl-owner", okind, r.chance(1, 2)))
 		}
 		bad := map[string]string{"app": "a", "tier": "b"}
-		switch cell.detail {
+		switch strings.TrimSuffix(cell.detail, "+refs") {
 		case "value":
 			bad["tier"] = "c"
 		case "missing":
@@ -213,7 +217,7 @@ func c19Build(seed uint64, cell c19Cell) *c19Case {
 		default:
 			bad["extra"] = "x"
 		}
-		injected = podDoc("alpha", "cfl-pod-x", bad, nil, "cfl-owner", "ReplicaSet", r.chance(1, 2))
+		injected = podDoc("alpha", "cfl-pod-x", bad, nil, "cfl-owner", okind, r.chance(1, 2))
 		c.tokens = []string{"cfl-owner"}
 		others = append(others, anps...)
 		others = append(others, nps...)
@@ -462,7 +466,7 @@ func c19Cells(tier string, seed uint64) (cells []c19Cell, exhaustiveUpTo int) {
 		add(c19Cell{kind: "banpName", n: 0, i: 0, j: -1, order: fmt.Sprint("v", k)})
 	}
 	for n := 1; n <= 5; n++ {
-		for _, d := range []string{"value", "missing", "extra"} {
+		for _, d := range []string{"value", "missing", "extra", "value+refs", "extra+refs"} {
 			for j := 0; j <= n; j++ {
 				add(c19Cell{kind: "podLabels", n: n, i: j, j: -1, order: "sorted", detail: d})
 			}
